@@ -7,7 +7,7 @@ use crate::xmlmini::{Child, Construct, Element};
 pub struct C08;
 
 /// payloads; `MK` is replaced by a unique marker name
-const PAYLOADS: [&str; 26] = [
+const PAYLOADS: [&str; 28] = [
     "<script>MK()</script>",
     "</style><script>MK()</script>",
     "</text><MK/>",
@@ -34,6 +34,8 @@ const PAYLOADS: [&str; 26] = [
     "\u{0}<MK/>",
     "<\u{1}MK/>",
     "} MK = {</style><MK/>",
+    "\u{1}MK\u{8}\u{ffff}",
+    "MK\u{b}\u{c}\u{fffe}",
 ];
 const CHANNELS: [&str; 11] = [
     "plain", "quoted", "tag", "legend-name", "legend-decl", "tag-after-identifier", "legend-name-after-identifier",
@@ -227,9 +229,9 @@ impl Prop for C08 {
         "C08"
     }
     fn rule(&self) -> &'static str {
-        "26 markup payloads (script, style/text/svg/g end tags, attributes, CDATA, comments, PIs, entity and character references, doctype, namespaces, control characters, legend break-out), each with a unique marker, \
+        "28 markup payloads (script, style/text/svg/g end tags, attributes, CDATA, comments, PIs, entity and character references, doctype, namespaces, control characters, legend break-out), each with a unique marker, \
          and every string up to length 3 (thorough 4) over {<,>,&,\",',/,!,-,?,;,=,a,space}, in each of 5 channels (plain cells, quoted string, {tag}, legend name, legend declaration) x 4 contexts (alone, inside a box so a tag attaches, touching a line, split over two rows), \
-         with default settings. Each output must parse, contain no comment/PI/CDATA/doctype, use only svgbob's element and attribute vocabulary in svgbob's nesting and order, have every attribute value match its numeric/path/points/identifier grammar, \
+         with default settings; the payloads additionally through to_svg, the compressed form and to_svg_with_override_size. Each output must parse, contain no comment/PI/CDATA/doctype, use only svgbob's element and attribute vocabulary in svgbob's nesting and order, have every attribute value match its numeric/path/points/identifier grammar, \
          and show the marker only in character data of text/style or as a class token. distinct_nontrivial = distinct (channel, context, element multiset) outcomes"
     }
     fn scopes(&self, tier: Tier, _seed: u64) -> Vec<Scope> {
@@ -273,6 +275,18 @@ impl Prop for C08 {
         let what = format!("channel {} context {} payload {:?} (input {:?})", CHANNELS[ch], CONTEXTS[c], payload, input);
         let nv = cx.viols.len();
         check_document(cx, &out, &marker, &what);
+        if p >= 0 && cx.viols.len() == nv {
+            // every other entry point must be just as tight
+            use crate::conv::Entry;
+            for e in [Entry::ToSvg, Entry::Compressed, Entry::OverrideSize(640.0, 480.0)] {
+                if let Some(o) = cx.conv_entry(&input, &Sett::default_(), e) {
+                    check_document(cx, &o, &marker, &format!("{} via {:?}", what, e));
+                    if cx.viols.len() > nv {
+                        return;
+                    }
+                }
+            }
+        }
         if cx.viols.len() == nv {
             if let Ok(d) = crate::svg::parse(&out) {
                 cx.outcome(&(ch, c, d.skeleton()));
